@@ -108,10 +108,32 @@ def mutants(model):
     out = []
     cls = model.cls(CFV)
     src = cls.module.src
+    # lines that no pair of operands ever executes are dead code: changing them is an equivalent mutant, not a sabotage
+    from ..fdai import Interp
+    from ..fdvalues import FuncVal, PyRaise
+
+    executed = set()
+    it = Interp(model)
+    tick0 = it.tick
+
+    def tick(node):
+        executed.add(getattr(node, "lineno", None))
+        tick0(node)
+
+    it.tick = tick  # type: ignore[method-assign]
+    for op in ("__and__", "__or__", "__xor__"):
+        for a in STATES:
+            for b in STATES:
+                try:
+                    it.call(FuncVal(fn=cls.methods[op], self_obj=it.enum(CFV, a), module=cls.module), [it.enum(CFV, b)], {}, None, None)
+                except PyRaise:
+                    pass
     for op in ("__and__", "__or__", "__xor__"):
         fn = cls.methods[op]
         n = 0
         for node in ast.walk(fn.node):
+            if getattr(node, "lineno", None) not in executed:
+                continue
             if isinstance(node, ast.Attribute) and isinstance(node.value, ast.Name) and node.value.id == "ConditionFulfilledValue" \
                     and node.attr in STATES:
                 for other in STATES:
